@@ -141,6 +141,8 @@ func init() {
 		Tasks: func(tier string) []Task {
 			if tier == "quick" {
 				return seqTasks("C01", []seqLevel{
+					{Name: "long-keys-d5", Cfgs: longKeyCfgs(), Keys: c18LongKeys, Alpha: longKeyMergeAlphabet, Depth: 5, Dev: 3, Run: runC01},
+					{Name: "same-offset-d6", Cfgs: []Cfg{blockCfg()}, Keys: keysAB, Alpha: sameOffsetAlphabet, Depth: 6, Dev: 6, Run: runC01},
 					{Name: "tiny-d3b2", Cfgs: tinyCfgs(), Keys: keysAB, Alpha: tinyAlphabet, Depth: 3, Dev: 2, Run: runC01},
 					{Name: "tiny-d4b2", Cfgs: []Cfg{defaultCfg}, Keys: keysAB, Alpha: tinyAlphabet, Depth: 4, Dev: 2, Run: runC01},
 					{Name: "block-d3b2", Cfgs: []Cfg{blockCfg()}, Keys: keysAB, Alpha: blockAlphabet, Depth: 3, Dev: 2, Run: runC01},
@@ -152,6 +154,8 @@ func init() {
 			bt3 := bt
 			bt3.IO = 1
 			return seqTasks("C01", []seqLevel{
+				{Name: "long-keys-d6", Cfgs: longKeyCfgs(), Keys: c18LongKeys, Alpha: longKeyMergeAlphabet, Depth: 6, Dev: 3, Run: runC01},
+				{Name: "same-offset-d7", Cfgs: []Cfg{blockCfg()}, Keys: keysAB, Alpha: sameOffsetAlphabet, Depth: 7, Dev: 7, Run: runC01},
 				{Name: "tiny-d4b2", Cfgs: tinyCfgs(), Keys: keysAB, Alpha: tinyAlphabet, Depth: 4, Dev: 2, Run: runC01},
 				{Name: "tiny-d5b3", Cfgs: []Cfg{defaultCfg}, Keys: keysAB, Alpha: tinyAlphabet, Depth: 5, Dev: 3, Split: 2, Run: runC01},
 				{Name: "block-d4b3", Cfgs: []Cfg{bt, bt2, bt3}, Keys: keysAB, Alpha: blockAlphabet, Depth: 4, Dev: 3, Run: runC01},
